@@ -1,9 +1,9 @@
 SPECIFICATION LSpec
 CONSTANTS
-  MaxPieces = 2
+  MaxPieces = 0
   MaxPhrase = 3
-  MaxTmpl = 0
-  Hosts = {"out", "assign"}
+  MaxTmpl = 5
+  Hosts = {"tmpl", "tmpl_if", "tmpl_for", "tmpl_case", "tmpl_cap"}
   EmitAll = TRUE
 INVARIANTS Emit
 CHECK_DEADLOCK FALSE
